@@ -191,6 +191,24 @@ def gen(run_seed: int, tier: str) -> dict:
             name = t.pick(sorted(live), "drop")
             del live[name]
             ops.append({"op": "drop", "obj": name})
+        elif k < 97 and t.chance(1, 2, "reconfig"):
+            # the user changes the project's configuration; every object built before is dropped (the library
+            # reads configuration at construction) and a NEW object is built in the same long-lived process:
+            # it must behave like a fresh process reading the new configuration
+            dirs = sorted({f.split("/")[0] for f in files if "/" in f})
+            which = t.pick(["ignorefile", "ignorefile", "yaml"], "cfg_which")
+            if which == "ignorefile":
+                pats = t.sample([d + "/" for d in dirs] + ["*.ts", "*.js", "*.rs", "helpers*", "utils*", "index*", "main*"],
+                                t.draw(3, "npat"), "pats")
+                ops.append({"op": "reconfig", "file": ".thailintignore", "content": "".join(p + "\n" for p in pats)})
+            else:
+                ops.append({"op": "reconfig", "file": ".thailint.yaml", "content": cpool.gen_config(t)})
+            for name in [n for n, r in live.items() if r == "proj"]:
+                del live[name]
+            name = f"L{nobj}"
+            nobj += 1
+            live[name] = "proj"
+            ops[-1]["new_obj"] = name
         elif k < 98:
             dirs = sorted({f.split("/")[0] for f in files if "/" in f})
             cwd = t.pick(["proj", "proj", "home", "proj2"] + [f"proj/{d}" for d in dirs[:2]], "cwd")
@@ -382,6 +400,21 @@ def _execute(zy, sc: dict, W: World) -> dict:
                 os.utime(p, ns=(st.st_atime_ns + 5_000_000_000, st.st_mtime_ns + 5_000_000_000))
         elif kind == "chdir":
             run.cwd = op["to"]
+        elif kind == "reconfig":
+            for name in [n for n, o in run.objs.items() if o["root"] == "proj"]:
+                zy.scall(sid, "vsim.subject:s_drop", {"env": run.env(seed_i, None, "tape", subj_tmp), "name": name}, timeout=60)
+                run.objs.pop(name, None)
+            if op["content"]:
+                W.write(op["file"], op["content"])
+            else:
+                W.delete(op["file"])
+            r = zy.scall(sid, "vsim.subject:s_new", {"env": run.env(seed_i, None, "tape", subj_tmp), "name": op["new_obj"],
+                                                      "root": run.path_of("proj")}, timeout=60)
+            if not r["ok"]:
+                run.failures.append(_fail("history", "constructor-raised", op="reconfig", exc=r.get("exc_type"), msg=r.get("exc")))
+                alive = r.get("kind") == "exception"
+            run.objs[op["new_obj"]] = {"root": "proj", "first_cwd": None, "as_str": None}
+            run.pending_events += 1
         elif kind == "new":
             r = zy.scall(sid, "vsim.subject:s_new", {"env": run.env(seed_i, None, "tape", subj_tmp), "name": op["obj"],
                                                       "root": run.path_of(op["root"]), "as_str": op.get("as_str")}, timeout=60)
